@@ -183,7 +183,7 @@ class FilterGen:
             root, start = "^", [[self.root]]
         else:
             return self.filter_query(cands, depth, singular=singular)
-        n = rng.choice([1, 1, 2, 2, 3])
+        n = rng.choice([0, 1, 1, 2, 2, 3])  # 0: the bare identifier (the context mapping / the wrapped document itself)
         if singular:
             return ["q", root, self.singular_segments(start, n)]
         segs, _ = Q.gen_segments(rng, self.root, nmax=n, kinds=("n", "i", "s", "w"), desc_p=0.1, start=start)
